@@ -709,6 +709,76 @@ def _rows_in_place(fn: ast.AST, keep: set[str] | None = None) -> bool:
     return done
 
 
+PURE_METHODS = {'sum', 'item', 'view', 'size', 'mean', 'abs', 'reshape', 'dim', 'numel', 'nelement', 'float', 'double', 'to', 'contiguous', 'values', 'keys', 'items', 'get', 'index'}
+
+
+def _loop_over_branch_lists(fn: ast.AST, keep: set[str] | None = None) -> bool:
+    """N24: `if c: …; L = [r1, …] else: …; L = [s1, …]` followed by `for t in L: B` with L a new local used nowhere else:
+    the loop moves into the branches; and a loop over a list / tuple literal of rows is unrolled (`t = r1; B; t = r2; B`)
+    when B cannot change what a later row evaluates to (B stores only to names the rows do not read and calls only
+    pure tensor / container methods)."""
+    if not isinstance(fn, (ast.FunctionDef, ast.AsyncFunctionDef)):
+        return False
+    done = False
+    for _owner, blk in list(_blocks(fn)):
+        k = 0
+        while k + 1 < len(blk):
+            a, b = blk[k], blk[k + 1]
+            k += 1
+            if not (isinstance(a, ast.If) and a.body and a.orelse and isinstance(b, ast.For) and not b.orelse and isinstance(b.iter, ast.Name)):
+                continue
+            L = b.iter.id
+            if L in (keep or ()):
+                continue
+            la, lb = a.body[-1], a.orelse[-1]
+            ok = all(isinstance(x, ast.Assign) and len(x.targets) == 1 and isinstance(x.targets[0], ast.Name) and x.targets[0].id == L
+                     and isinstance(x.value, (ast.List, ast.Tuple)) for x in (la, lb))
+            occ = sum(1 for n in ast.walk(fn) if isinstance(n, ast.Name) and n.id == L)
+            if not ok or occ != 3 or _has_jump(b.body):
+                continue
+            for branch, last in ((a.body, la), (a.orelse, lb)):
+                loop = ast.For(target=copy.deepcopy(b.target), iter=last.value, body=[copy.deepcopy(x) for x in b.body], orelse=[], type_comment=None)
+                ast.copy_location(loop, b)
+                branch[-1] = loop
+                ast.fix_missing_locations(loop)
+            del blk[k]
+            done = True
+    # unroll loops over literal rows
+    for _owner, blk in list(_blocks(fn)):
+        k = 0
+        while k < len(blk):
+            st = blk[k]
+            k += 1
+            if not (isinstance(st, ast.For) and not st.orelse and isinstance(st.iter, (ast.List, ast.Tuple)) and 0 < len(st.iter.elts) <= MAX_UNROLL and not _has_jump(st.body)):
+                continue
+            if any(isinstance(x, ast.Starred) for x in st.iter.elts):
+                continue
+            tnames = {n.id for n in ast.walk(st.target) if isinstance(n, ast.Name)}
+            row_reads = {n.id for r in st.iter.elts for n in ast.walk(r) if isinstance(n, ast.Name)}
+            body_stores = set()
+            for x in st.body:
+                body_stores |= _stores(x)
+            attr_stores = any(isinstance(n, (ast.Attribute, ast.Subscript)) and isinstance(n.ctx, (ast.Store, ast.Del)) for x in st.body for n in ast.walk(x))
+            calls_ok = all((isinstance(n.func, ast.Attribute) and n.func.attr in PURE_METHODS) or (isinstance(n.func, ast.Name) and n.func.id in PURE_BUILTINS | {'min', 'max', 'abs', 'sum'})
+                           for x in st.body for n in ast.walk(x) if isinstance(n, ast.Call))
+            if (body_stores - tnames) & row_reads or attr_stores or not calls_ok or tnames & _loads(blk[k:]) or (tnames & row_reads and len(st.iter.elts) > 1 and False):
+                continue
+            # a target that a later row reads would be overwritten by an earlier iteration
+            if len(st.iter.elts) > 1 and tnames & {n.id for r in st.iter.elts[1:] for n in ast.walk(r) if isinstance(n, ast.Name)}:
+                continue
+            new_sts: list[ast.stmt] = []
+            for r in st.iter.elts:
+                asg = ast.copy_location(ast.Assign(targets=[copy.deepcopy(st.target)], value=r, lineno=st.lineno), st)
+                new_sts.append(asg)
+                new_sts += [copy.deepcopy(x) for x in st.body]
+            for x in new_sts:
+                ast.fix_missing_locations(x)
+            blk[k - 1:k] = new_sts
+            k += len(new_sts) - 1
+            done = True
+    return done
+
+
 def _collapse_rmw(fn: ast.AST, keep: set[str] | None = None) -> bool:
     """N19: `t = L; t op= e; L = t` (t a temporary used nowhere else, L an attribute or subscript) is `L op= e`:
     the same load, in-place operator and store that the augmented assignment to L performs."""
@@ -772,6 +842,7 @@ def copy_prop_function(fn: ast.AST, keep: set[str] | None = None) -> None:
 def _fold(fn: ast.AST, keep: set[str] | None = None) -> None:
     if _TABLES:
         _Tables().visit(fn)
+    _loop_over_branch_lists(fn, keep)
     _split_tuple_assigns(fn)
     if isinstance(fn, (ast.FunctionDef, ast.AsyncFunctionDef)):
         if _split_versions(fn, keep):
